@@ -203,6 +203,12 @@ def b_int(ex, s, args, kw, node):
     if not args:
         return [(s, VInt(0))]
     v = ex.deref(s, args[0])
+    if isinstance(v, VOpt) or v is VNone:
+        # int(None) raises TypeError; otherwise int(<the value>)
+        out = []
+        for s1, v1 in ex.unopt(s, v, node):
+            out.extend([(s1, v1)] if isinstance(v1, Raised) else b_int(ex, s1, [v1] + list(args[1:]), kw, node))
+        return out
     if isinstance(v, VInt):
         return [(s, v)]
     if isinstance(v, VBool):
@@ -414,10 +420,19 @@ def b_str(ex, s, args, kw, node):
     if not args:
         return [(s, VStr(''))]
     v = ex.deref(s, args[0])
+    if isinstance(v, VOpt):
+        # str(None) == 'None'; otherwise str(<the value>)
+        out = []
+        for s1, isn in ex.branch(s, v.isnone, node):
+            out.extend([(s1, VStr('None'))] if isn else b_str(ex, s1, [v.val], kw, node))
+        return out
     if isinstance(v, VStr):
         return [(s, v)]
     if isinstance(v, VInt):
-        return [(s, VStr(z3.IntToStr(v.z)))] if False else [(s, VStr(z3.String(fresh_name('str_of_int'))))]
+        # str(int) is a function of the int: a fresh string constant tied to the uninterpreted str_of_int(v)
+        t = z3.String(fresh_name('str_of_int'))
+        s.assume(t == z3.Function('str_of_int', IntS, StrS)(v.z))
+        return [(s, VStr(t))]
     return [(s, VStr(z3.String(fresh_name('str_of'))))]
 
 
